@@ -102,6 +102,11 @@ def generate(tier, seed):
                         "death": rnd.choice([None, "species", "param", "event"]),
                         "modes": {s: rnd.choice(["binomial", "perfect", "duplicate"]) for s in sp["species"]},
                         "vmode": rnd.choice(["binomial", "perfect"]), "noise": rnd.choice([0.0, 0.4])}
+            nlin = sum(1 for c_ in cases if c_["kind"] == "lineage")
+            if nlin % 3 == 0:
+                # every kind of event at once (volume, division and death events with different rates): their order inside
+                # the restored model matters
+                c["lin"].update(growth=rnd.choice(["event_linear", "event_multiplicative", "event_general"]), division="event", death="event")
         cases.append(c)
     # result / state / lineage objects
     for i in range(20 if tier == "quick" else 300):
